@@ -48,7 +48,9 @@ def main() -> int:
         mod = importlib.import_module(f"harness.{prop.lower()}")
         if a.replay:
             body = json.loads(Path(a.replay).read_text())
-            return mod.replay(ctx, body)
+            mode = (body.get("case") or {}).get("annot", False) if isinstance(body.get("case"), dict) else False
+            with ctx.wrapped(mode):
+                return mod.replay(ctx, body)
         mod.run(ctx)
         return ctx.finish()
     except core.Infra as e:
